@@ -291,7 +291,14 @@ func NewMapContext(mapLen int, unorderedMap bool) *MapContext {
 	return ctx
 }
 
+// a MapContext stays referenced until the end of the call (KeepRefs) and in the pool afterwards:
+// a large buffer is not kept with it, or the buffers of nested maps add up
+const maxPooledMapBufSize = 16 * 1024
+
 func ReleaseMapContext(c *MapContext) {
+	if cap(c.Buf) > maxPooledMapBufSize {
+		c.Buf = nil
+	}
 	mapContextPool.Put(c)
 }
 
